@@ -201,6 +201,28 @@ Proof.
   rewrite firstn_app, firstn_all, Nat.sub_diag. cbn [firstn]. apply app_nil_r.
 Qed.
 
+(** the record [r] with data reading [x] sits in [p] as its own pointer-free encoding *)
+Definition plain_at (p : bytes) (r : rec_view) (x : rd_view) : Prop :=
+  rv_name_end r = rv_off r + length (wire_of_labels (rv_labels r)) /\
+  firstn (length (wire_of_labels (rv_labels r))) (skipn (rv_off r) p) = wire_of_labels (rv_labels r) /\
+  rv_rdlen r = length (plain_rdata x) /\
+  firstn (rv_rdlen r) (skipn (rv_name_end r + 10) p) = plain_rdata x.
+
+Lemma plain_at_placed pre r x post : plain_at (pre ++ plain_record (r, x) ++ post) (rv_at r x (length pre)) x.
+Proof.
+  unfold plain_at, rv_at, plain_record. cbn [rv_off rv_labels rv_name_end rv_rdlen].
+  split; [reflexivity|]. split.
+  - rewrite <- !app_assoc. apply firstn_skipn_mid.
+  - split; [reflexivity|].
+    set (W := wire_of_labels (rv_labels r)). set (RD := plain_rdata x).
+    replace (pre ++ (W ++ be16_bytes (rv_type r) ++ be16_bytes (rv_class r) ++ be32_bytes (rv_ttl r) ++ be16_bytes (N.of_nat (length RD)) ++ RD) ++ post)
+      with ((pre ++ W ++ be16_bytes (rv_type r) ++ be16_bytes (rv_class r) ++ be32_bytes (rv_ttl r) ++ be16_bytes (N.of_nat (length RD))) ++ RD ++ post)
+      by (rewrite <- !app_assoc; reflexivity).
+    replace (length pre + length W + 10) with (length (pre ++ W ++ be16_bytes (rv_type r) ++ be16_bytes (rv_class r) ++ be32_bytes (rv_ttl r) ++ be16_bytes (N.of_nat (length RD))))
+      by (rewrite !app_length; cbn [length be16_bytes be32_bytes]; lia).
+    apply firstn_skipn_mid.
+Qed.
+
 (** ** The data of one record in context *)
 Section Data.
   Variable p : bytes.
@@ -398,7 +420,8 @@ Section Recs.
         let e := length pre + length (concat (map plain_record lx)) in
         rrs_wf q sec seen (length pre) n e seen' /\
         exists lx', records_at q (length pre) (map fst lx') e /\ Forall (rd_ok q) lx' /\
-                    map plain_record lx' = map plain_record lx /\ Forall2 same_rec lx lx'.
+                    map plain_record lx' = map plain_record lx /\ Forall2 same_rec lx lx' /\
+                    Forall (fun rx => plain_at q (fst rx) (snd rx)) lx'.
   Proof.
     induction 1 as [seen off|seen off off1 seen1 n off' seen' Hrr Hrest IH].
     - exists []. cbn [map concat length]. split; [constructor|]. split; [reflexivity|]. split; [constructor|].
@@ -411,12 +434,12 @@ Section Recs.
       split; [constructor; [exact Hx|exact Hxs]|]. split; [apply bytes_ok_app; assumption|].
       intros pre post. cbv zeta.
       destruct (Hctx pre (concat (map plain_record lx) ++ post)) as (W1 & R1 & X1).
-      destruct (Hctxs (pre ++ plain_record (r, x)) post) as (W2 & lx' & R2 & X2 & E2 & F2).
+      destruct (Hctxs (pre ++ plain_record (r, x)) post) as (W2 & lx' & R2 & X2 & E2 & F2 & P2).
       assert (Eq1 : pre ++ (plain_record (r, x) ++ concat (map plain_record lx)) ++ post =
                     pre ++ plain_record (r, x) ++ concat (map plain_record lx) ++ post) by (rewrite <- !app_assoc; reflexivity).
       assert (Eq2 : (pre ++ plain_record (r, x)) ++ concat (map plain_record lx) ++ post =
                     pre ++ plain_record (r, x) ++ concat (map plain_record lx) ++ post) by (rewrite <- !app_assoc; reflexivity).
-      rewrite Eq1. rewrite Eq2 in W2, R2, X2. rewrite app_length in W2, R2.
+      rewrite Eq1. rewrite Eq2 in W2, R2, X2, P2. rewrite app_length in W2, R2.
       rewrite (app_length (plain_record (r, x))).
       replace (length pre + (length (plain_record (r, x)) + length (concat (map plain_record lx))))
         with (length pre + length (plain_record (r, x)) + length (concat (map plain_record lx))) by lia.
@@ -424,7 +447,8 @@ Section Recs.
       exists ((rv_at r x (length pre), x) :: lx'). cbn [map fst].
       split; [change (length pre) with (rv_off (rv_at r x (length pre))) at 1; econstructor; eauto|].
       split; [constructor; [exact X1|exact X2]|]. split; [cbn [map]; rewrite E2; reflexivity|].
-      constructor; [unfold same_rec; cbn; auto|exact F2].
+      split; [constructor; [unfold same_rec; cbn; auto|exact F2]|].
+      constructor; [|exact P2]. cbn [fst snd]. apply plain_at_placed.
   Qed.
 End Recs.
 
@@ -512,7 +536,8 @@ Theorem plain_packet : forall p, bytes_ok p -> wf_packet p ->
     exists lxa' lxn' lxr', reading q qls qt lxa' lxn' lxr' /\
       map plain_record lxa' = map plain_record lxa /\ map plain_record lxn' = map plain_record lxn /\
       map plain_record lxr' = map plain_record lxr /\
-      Forall2 same_rec (lxa ++ lxn ++ lxr) (lxa' ++ lxn' ++ lxr').
+      Forall2 same_rec (lxa ++ lxn ++ lxr) (lxa' ++ lxn' ++ lxr') /\
+      Forall (fun rx => plain_at q (fst rx) (snd rx)) (lxa' ++ lxn' ++ lxr').
 Proof.
   intros p Hb (w & an & ns & ar & qe & qclass & e1 & s1 & e2 & s2 & s3 & Hw & Hqd & Han & Hns & Har & (qls & Hqn) & Hq4 & Hqc & Hcls & Hgate & Hc1 & Hc2 & Hc3).
   subst qclass.
@@ -539,13 +564,13 @@ Proof.
   pose proof (wire_length_le _ _ _ _ Hqn) as Hwl. fold W in Hwl.
   pose proof (u16_lt _ _ _ Hb Hqt) as Hqtlt.
   (* the three sections in their contexts *)
-  destruct (Hca (hdr ++ W ++ be16_bytes qt ++ be16_bytes CLASS_IN) (Nn ++ R)) as (Wa & lxa' & Ra & Xa & Ea & Fa). fold A in Wa, Ra, Xa.
-  destruct (Hcn (hdr ++ (W ++ be16_bytes qt ++ be16_bytes CLASS_IN) ++ A) R) as (Wn & lxn' & Rn & Xn & En & Fn). fold Nn in Wn, Rn, Xn.
-  destruct (Hcr (hdr ++ (W ++ be16_bytes qt ++ be16_bytes CLASS_IN) ++ A ++ Nn) []) as (Wr & lxr' & Rr & Xr & Er & Fr). fold R in Wr, Rr, Xr.
+  destruct (Hca (hdr ++ W ++ be16_bytes qt ++ be16_bytes CLASS_IN) (Nn ++ R)) as (Wa & lxa' & Ra & Xa & Ea & Fa & Pa). fold A in Wa, Ra, Xa, Pa.
+  destruct (Hcn (hdr ++ (W ++ be16_bytes qt ++ be16_bytes CLASS_IN) ++ A) R) as (Wn & lxn' & Rn & Xn & En & Fn & Pn). fold Nn in Wn, Rn, Xn, Pn.
+  destruct (Hcr (hdr ++ (W ++ be16_bytes qt ++ be16_bytes CLASS_IN) ++ A ++ Nn) []) as (Wr & lxr' & Rr & Xr & Er & Fr & Pr). fold R in Wr, Rr, Xr, Pr.
   assert (Q1 : (hdr ++ W ++ be16_bytes qt ++ be16_bytes CLASS_IN) ++ A ++ Nn ++ R = q) by (unfold q; rewrite <- !app_assoc; reflexivity).
   assert (Q2 : (hdr ++ (W ++ be16_bytes qt ++ be16_bytes CLASS_IN) ++ A) ++ Nn ++ R = q) by (unfold q; rewrite <- !app_assoc; reflexivity).
   assert (Q3 : (hdr ++ (W ++ be16_bytes qt ++ be16_bytes CLASS_IN) ++ A ++ Nn) ++ R ++ [] = q) by (unfold q; rewrite app_nil_r, <- !app_assoc; reflexivity).
-  rewrite Q1 in Wa, Ra, Xa. rewrite Q2 in Wn, Rn, Xn. rewrite Q3 in Wr, Rr, Xr.
+  rewrite Q1 in Wa, Ra, Xa, Pa. rewrite Q2 in Wn, Rn, Xn, Pn. rewrite Q3 in Wr, Rr, Xr, Pr.
   assert (L1 : length (hdr ++ W ++ be16_bytes qt ++ be16_bytes CLASS_IN) = 12 + length W + 4) by (rewrite !app_length, Hlh; cbn [length be16_bytes]; lia).
   assert (L2 : length (hdr ++ (W ++ be16_bytes qt ++ be16_bytes CLASS_IN) ++ A) = 12 + length W + 4 + length A) by (rewrite !app_length, Hlh; cbn [length be16_bytes]; lia).
   assert (L3 : length (hdr ++ (W ++ be16_bytes qt ++ be16_bytes CLASS_IN) ++ A ++ Nn) = 12 + length W + 4 + length A + length Nn) by (rewrite !app_length, Hlh; cbn [length be16_bytes]; lia).
@@ -575,7 +600,8 @@ Proof.
     split; [exists qls; exact Cq|]. split; [lia|]. split; [exact Clq|]. split; [reflexivity|]. split; [exact Hgate|].
     split; [exact Wa|]. split; [exact Wn|exact Wr]. }
   exists lxa', lxn', lxr'.
-  split; [|split; [exact Ea|]; split; [exact En|]; split; [exact Er|]; apply Forall2_app; [exact Fa|apply Forall2_app; assumption]].
+  split; [|split; [exact Ea|]; split; [exact En|]; split; [exact Er|]; split; [apply Forall2_app; [exact Fa|apply Forall2_app; assumption]|];
+           apply Forall_app; split; [exact Pa|apply Forall_app; split; assumption]].
   constructor.
   - exists (12 + length W), (12 + length W + 4 + length A), (12 + length W + 4 + length A + length Nn).
     split; [exact Cq|]. split; [exact Tq|]. split; [exact Clq|]. split; [lia|]. split; [exact Ra|]. split; [exact Rn|exact Rr].
@@ -615,7 +641,7 @@ Theorem uncompress_roundtrip : forall p v, bytes_ok p -> parse p = Ok v ->
 Proof.
   intros p v Hb Hp.
   destruct (uncompress_reading p v Hb Hp) as (qls1 & qt1 & lxa1 & lxn1 & lxr1 & R1 & Hu).
-  destruct (plain_packet p Hb (parse_sound p v Hb Hp)) as (qls & qt & lxa & lxn & lxr & R2 & Hbq & Hwq & lxa' & lxn' & lxr' & R2' & Ea & En & Er & F2).
+  destruct (plain_packet p Hb (parse_sound p v Hb Hp)) as (qls & qt & lxa & lxn & lxr & R2 & Hbq & Hwq & lxa' & lxn' & lxr' & R2' & Ea & En & Er & F2 & P2).
   destruct (reading_fun _ _ _ _ _ _ _ _ _ _ _ R1 R2) as (-> & -> & -> & -> & ->).
   set (q := plain_packet_of p qls qt lxa lxn lxr) in *.
   destruct (parse_complete q Hbq Hwq) as (v' & Hp').
